@@ -185,6 +185,27 @@ def r8_none_only_when_the_scan_found_nothing(ctx):
            "create_stream reads that as an empty pool and dials a new TLS connection while healthy idle sessions stay unused", path=None if ok else render_path(g, p))
 
 
+def r9_lookup_makes_progress(ctx):
+    """the look-up terminates: every turn of its loop takes an entry out of the map (the clean code removes the newest entry and
+    only then asks whether it is closed).  A variant that leaves a closed entry in place and "moves on" with an inclusive bound
+    meets the same entry again — with the pool lock held, so neither the reaper nor any other request gets past it"""
+    g = co(ctx, "R13.9", POOL + "get_idle_session")
+    if g is None:
+        return
+    cfg = ctx.cfg(g)
+    scan = calls_norm(g, "BTreeMap::last_key_value", "BTreeMap::first_key_value", "BTreeMap::pop_last", "BTreeMap::pop_first", "BTreeMap::last_entry", "BTreeMap::first_entry",
+                      "BTreeMap::keys", "BTreeMap::iter", "BTreeMap::values", "BTreeMap::range", "BTreeMap::range_mut")
+    takes = calls_norm(g, "BTreeMap::remove", "BTreeMap::pop_last", "BTreeMap::pop_first", "BTreeMap::remove_entry", "OccupiedEntry::remove", "OccupiedEntry::remove_entry", "BTreeMap::retain")
+    loops = [c for c in scan if cfg.in_cycle(c.bb)]
+    if not loops:
+        ctx.ob("R13.9", "get_idle_session:every-turn-removes-an-entry", True, scan[0].site if scan else "", "the look-up does not loop")
+        return
+    ok, p = cfg.must_pass(cfg.succ(loops[0].bb), [loops[0].bb], via_blocks=[c.bb for c in takes])
+    ctx.ob("R13.9", "get_idle_session:every-turn-removes-an-entry", ok, loops[0].site, "no way round the loop leaves the map as it was" if ok else
+           "the look-up can go round its loop without removing anything from the map: it meets the same (closed) entry again and spins, holding the pool lock — the request gets no outcome at all, and every later "
+           "request and the reaper park behind it", path=None if ok else render_path(g, p)[:12])
+
+
 def run(ctx):
     from . import C20 as _C20t
     _C20t.r12_subtractions(ctx, _C20t.input_reachable(ctx))   # no subtraction (sizes, Durations) that can underflow and kill the task that computes it
@@ -211,6 +232,7 @@ def run(ctx):
     r3_skip_closed(ctx)
     r3b_open_entry_is_returned(ctx)
     r8_none_only_when_the_scan_found_nothing(ctx)
+    r9_lookup_makes_progress(ctx)
     from . import C09 as _C09c
     _C09c.r12_close_is_never_cancelled(ctx)   # a session the pool forgets is really shut down: a cancelled close() leaves its TLS connection open for good, outside every bound
     _C09c.r3_recv_exits(ctx)    # a session whose receive task has ended says so (is_closed): get_idle_session skips it instead of handing a dead session to the next request
